@@ -70,6 +70,7 @@ var subjects = append([]subject{
 	{Name: "accessor", Ctor: `Object.defineProperty({}, "x", {get: function(){ return 1 }, set: function(v){}, enumerable: true, configurable: true})`, Props: []string{"x"}},
 	{Name: "fixed-data", Ctor: `Object.defineProperty({}, "x", {value: 1})`, Props: []string{"x"}},
 	{Name: "absent", Ctor: `({})`, Props: []string{"x"}},
+	{Name: "u16-key", Ctor: `(function(){ var o = {}; o[String.fromCharCode(107)] = String.fromCharCode(118); return o })()`, Props: []string{"@String.fromCharCode(107)", "@String.fromCharCode(0xD800)"}},
 	{Name: "inherited", Ctor: `Object.create({x: 1})`, Props: []string{"x"}},
 	{Name: "array", Ctor: `[1, 2]`, Props: []string{"0", "length"}},
 	{Name: "function", Ctor: `(function f(a){ return a })`, Props: []string{"prototype", "length"}},
@@ -89,6 +90,9 @@ var histSteps = []struct{ Name, Src string }{
 	{"def-data-full", `Object.defineProperty(o, P, {value: 2, writable: true, enumerable: true, configurable: true})`},
 	{"def-value-undef", `Object.defineProperty(o, P, {value: undefined})`},
 	{"def-value-self", `Object.defineProperty(o, P, {value: o, configurable: true})`},
+	{"def-value-u16", `Object.defineProperty(o, P, {value: String.fromCharCode(104, 105)})`},
+	{"def-fixed-u16", `Object.defineProperty(o, P, {value: String.fromCharCode(104, 105), writable: false, enumerable: true, configurable: false})`},
+	{"assign-u16", `o[P] = String.fromCharCode(104, 105)`},
 	{"def-readonly", `Object.defineProperty(o, P, {writable: false})`},
 	{"def-hidden", `Object.defineProperty(o, P, {enumerable: false})`},
 	{"def-fixed", `Object.defineProperty(o, P, {configurable: false})`},
@@ -151,7 +155,11 @@ func histSource(s subject, prop string, steps []int) string {
 	} else {
 		sb.WriteString("var o = " + s.Ctor + "; ")
 	}
-	fmt.Fprintf(&sb, "var P = %q;\n", prop)
+	if strings.HasPrefix(prop, "@") {
+		sb.WriteString("var P = " + prop[1:] + ";\n") // a computed property name
+	} else {
+		fmt.Fprintf(&sb, "var P = %q;\n", prop)
+	}
 	for _, st := range steps {
 		sb.WriteString("try { " + histSteps[st].Src + " } catch (e) {}\n")
 	}
